@@ -85,6 +85,9 @@ def ledger_cases(ctx):
     for c in cases[:: (1 if ctx.thorough else 3)]:
         ops = [o.replace("GRP", "grp") if o.startswith("GRP") else o for o in c.ops]
         lines.append(_value.line_of(ops))
+    # container-typed overloads with the operand inside the destination's own root (validation: real traces only)
+    for ops in _value.alias_cases():
+        lines.append(_value.line_of(ops))
     # operation-only traces for the comparison with the trace model
     depth = 3 if ctx.thorough else 2
     for n in range(1, depth + 1):
@@ -92,7 +95,7 @@ def ledger_cases(ctx):
             lines.append(_value.line_of(list(seq), cmd="valled"))
     for _ in range(4000 if not ctx.thorough else 60000):
         g = _value.PtrGraph()
-        ops = [_value.rand_op(rng, g, allow_group=False) for _ in range(rng.choice([1, 3, 5, 8, 12, 16]))]
+        ops = [_value.rand_op(rng, g, allow_group=False, allow_cop=False) for _ in range(rng.choice([1, 3, 5, 8, 12, 16]))]
         lines.append(_value.line_of(ops, cmd="valled"))
     return "value_harness.cpp", lines
 
